@@ -95,6 +95,8 @@ def fmt(t):
         return '?%s#%d' % (t[1], t[2])
     if k == 'cast':
         return '(%s)%s' % (t[1], fmt(t[2]))
+    if k == 'wrap':
+        return 'wrap<%s>(%s)' % (t[1], fmt(t[2]))
     if k == 'struct':
         return '{%s%s}' % (fmt(t[1]) + ' with ' if t[1] else '', ', '.join('.%s=%s' % (f, fmt(v)) for f, v in t[2]))
     if k == 'fv':
@@ -599,6 +601,10 @@ class Engine:
                 out.append(-Lin.atom(a))
         return out
 
+    def _nonneg_lin(self, x):
+        """a linear form that cannot be negative: non-negative coefficients over unsigned atoms"""
+        return x.c >= 0 and all(v >= 0 and isinstance(a, tuple) and self.unsigned(a) for a, v in x.t.items())
+
     def path_facts(self, path):
         """linear facts of a path; disequalities are kept as ('ne', Lin) and are
         strengthened to strict inequalities inside entails()/feasible() when the
@@ -611,12 +617,48 @@ class Engine:
                 out.append(('ne', linearize(c[2]) - linearize(c[3])))
         return out
 
+    def strict_facts(self, path, about=None):
+        """path_facts, but a narrowing integer conversion in a path condition is value preserving only where that is
+        proved: `(T)x` (about `about` terms, if given) becomes an opaque value w with min(T) <= w <= max(T); w == x is added
+        once the facts gathered so far entail that x fits T (iterated to a fixpoint).  Sound where path_facts is
+        deliberately optimistic about wrap-around."""
+        conds = path.cond_terms() if isinstance(path, Path) else list(path)
+        m = {}
+        for c in conds:
+            for t in subterms(c):
+                if t[0] == 'cast' and t[1] in self.INT_MAX_OF and not is_c(t[2]) and \
+                        (about is None or any(contains(t[2], a) for a in about)):
+                    m[t] = ('wrap', t[1], t[2])
+        if not m:
+            return self.path_facts(conds)
+        # innermost first, so that nested conversions are replaced consistently
+        conds = [substitute(c, m) for c in conds]
+        facts = self.path_facts(conds)
+        todo = {}
+        for t, w in m.items():
+            w = substitute(w, {k: v for k, v in m.items() if k != t})
+            mx = self.INT_MAX_OF[t[1]]
+            lo = 0 if t[1].startswith('unsigned') else -mx - 1
+            facts.append(Lin.atom(w) - mx)
+            facts.append(Lin.const(lo) - Lin.atom(w))
+            todo[w] = (linearize(w[2]), lo, mx)
+        changed = True
+        while changed and todo:
+            changed = False
+            for w, (x, lo, mx) in list(todo.items()):
+                if self.entails(facts, x - mx) and self.entails(facts, Lin.const(lo) - x):
+                    facts.append(Lin.atom(w) - x)
+                    facts.append(x - Lin.atom(w))
+                    del todo[w]
+                    changed = True
+        return facts
+
     def _strengthen(self, facts):
         """split [Lin | ('ne', Lin)] and turn disequalities into strict bounds"""
         lins = [f for f in facts if isinstance(f, Lin)]
         nes = [f[1] for f in facts if not isinstance(f, Lin)]
         lins = lins + self.nonneg_facts(lins + nes)
-        lins += division_axioms(lins + nes)
+        lins += division_axioms(lins + nes, self._nonneg_lin)
         for _ in range(2):
             rest = []
             for d in nes:
@@ -756,25 +798,53 @@ def exit_only_nodes(root):
     return out
 
 
-def division_axioms(lins):
+def division_axioms(lins, nonneg=None):
     """for atoms x/c and x%c (c>0 const, x unsigned-ish) add  c*(x/c) <= x,
-    x <= c*(x/c) + c-1"""
+    x <= c*(x/c) + c-1;  x & (2^k - 1) is x % 2^k for x that cannot be negative (`nonneg` decides)"""
     out = []
     atoms = set()
     for l in lins:
         atoms |= l.atoms()
     for a in atoms:
+        if isinstance(a, tuple) and a[0] == '&b' and len(a) == 3:
+            x, m = (a[1], a[2]) if is_c(a[2]) else (a[2], a[1])
+            if is_c(m) and is_c(x):
+                r = Lin.atom(a) - (m[1] & x[1])
+                out += [r, -r]
+            elif is_c(m) and m[1] > 0 and (m[1] & (m[1] + 1)) == 0:
+                r = Lin.atom(a)
+                c = m[1] + 1
+                out.append(-r)
+                out.append(r - m[1])
+                xl = linearize(x)
+                if nonneg is not None and nonneg(xl):
+                    if all((v / c).denominator == 1 for v in list(xl.t.values()) + [xl.c]):
+                        out.append(r)
+                    q = ('/', x, C(c))
+                    if q in atoms:
+                        e = xl - Lin.atom(q).scale(c) - r
+                        out += [e, -e]
+                    md = ('%', x, C(c))
+                    if md in atoms:
+                        out += [r - Lin.atom(md), Lin.atom(md) - r]
         if isinstance(a, tuple) and a[0] == '%':
             # 0 <= x % m <= m - 1   (m >= 1 is the caller's obligation; m == 0 is undefined behaviour anyway)
             r = Lin.atom(a)
             out.append(-r)
             out.append(r - linearize(a[2]) + 1)
+            if is_c(a[2]) and a[2][1] > 0:
+                x = linearize(a[1])
+                c = a[2][1]
+                if all((v / c).denominator == 1 for v in list(x.t.values()) + [x.c]):
+                    out.append(r)                      # every coefficient is a multiple of c:  x % c == 0
         if isinstance(a, tuple) and a[0] == '/' and is_c(a[2]) and a[2][1] > 0:
             c = a[2][1]
             x = linearize(a[1])
             q = Lin.atom(a)
             out.append(q.scale(c) - x)                 # c*q <= x
             out.append(x - q.scale(c) - (c - 1))       # x <= c*q + c-1
+            if all((v / c).denominator == 1 for v in list(x.t.values()) + [x.c]):
+                out.append(x - q.scale(c))             # every coefficient is a multiple of c:  x == c*(x/c)
             m = ('%', a[1], a[2])
             if m in atoms:                             # x == c*(x/c) + x%c  (C99 6.5.5p6, any sign)
                 e = x - q.scale(c) - Lin.atom(m)
